@@ -65,10 +65,12 @@ def gen_case(rng, systems):
         N = dims[0] * dims[1] * dims[2]
     cell_env = [rng.randrange(len(envs)) for _ in range(N)]
     species, dens_tab, chs_tab = [], [], []
+    own_sys, node_sys = [], []
     for s in range(nS):
         ssys = rng.choice(systems) if rng.random() < 0.5 else None          # None = given the network's system explicitly
         eff = ssys or net_sys
         kw = {"label": "ABC"[s], "units_system": UnitsSystem(*eff)}
+        own_sys.append(ssys)
         tab = ["none"] * (len(envs) + 1)
         mode = rng.choice(["scalar", "dict", "dict-default", "absent", "explicit-unit"])
         if mode == "scalar":
@@ -118,6 +120,7 @@ def gen_case(rng, systems):
             nsys = rng.choice(systems) if rng.random() < 0.4 else space_sys
             v = rng.choice([Fr(1), Fr(8), Fr(1, 2)])
             nodes.append({"volume": float(v), "environment": cell_env[c], "units_system": UnitsSystem(*nsys)})
+            node_sys.append(nsys if nsys is not space_sys else None)
             vols.append(mono_of(v, vol_scale(nsys)))
         space = ("graph", nodes)
     else:
@@ -139,7 +142,7 @@ def gen_case(rng, systems):
     spec = {"nS": nS, "cellEnv": cell_env, "vol": vols, "dens": [enc(t) for t in dens_tab], "chs": [enc(t) for t in chs_tab],
             "edits": [{k: v for k, v in e.items() if not k.startswith("_")} for e in edits]}
     impl = {"species": species, "envs": envs, "space": space, "net_sys": net_sys, "sys_sys": sys_sys, "space_sys": space_sys,
-            "edits": edits, "dims": dims, "N": N}
+            "edits": edits, "dims": dims, "N": N, "species_own_sys": own_sys, "node_own_sys": node_sys}
     return spec, impl
 
 
@@ -152,6 +155,36 @@ def build(impl):
     else:
         space = RDGraphSpace(nodes=[RDGraphSpaceNode(**n) for n in sp[1]], edges=[], units_system=UnitsSystem(*impl["space_sys"]))
     return RDSystem(network=net, space=space, units_system=UnitsSystem(*impl["sys_sys"]))
+
+
+def build_from_dict(impl):
+    """The same system through the dictionary readers: a level that has no system of its own omits its 'units' key and
+    inherits (species from the network, nodes from the graph), exactly as the constructors were told explicitly."""
+    ud = lambda s: {"space": s[0], "time": s[1], "quantity": s[2]}
+    sps = []
+    for kw, own in zip(impl["species"], impl["species_own_sys"]):
+        d = {"label": kw["label"]}
+        if "density" in kw:
+            d["density"] = str(kw["density"]) if isinstance(kw["density"], UnitValue) else kw["density"]
+        if "chstt" in kw:
+            d["chstt"] = kw["chstt"]
+        if own is not None:
+            d["units"] = ud(own)
+        sps.append(d)
+    net = {"species": sps, "reactions": [], "environments": list(impl["envs"]), "units": ud(impl["net_sys"])}
+    sp = impl["space"]
+    if sp[0] == "grid":
+        space = {"type": "grid", "w": sp[1][0], "h": sp[1][1], "d": sp[1][2], "cell_vol": sp[2], "cell_env": list(sp[3]), "units": ud(impl["space_sys"])}
+    else:
+        nodes = []
+        for n, own in zip(sp[1], impl["node_own_sys"]):
+            nd = {"volume": n["volume"], "environment": n["environment"]}
+            if own is not None:
+                nd["units"] = ud(own)
+            nodes.append(nd)
+        space = {"type": "graph", "nodes": nodes, "edges": [], "units": ud(impl["space_sys"])}
+    from strengths import rdsystem_from_dict
+    return rdsystem_from_dict(json.loads(json.dumps({"network": net, "space": space, "units": ud(impl["sys_sys"])})))
 
 
 def si_state(system):
@@ -238,6 +271,20 @@ def _case(rep, spec, impl, exp, tag):
             return
         if [int(v) for v in system.chemostats] != [int(bool(b)) for b in exp["chem"]]:
             rep.violation("default", "layout:default-chemostats", dict(tag, got=[int(v) for v in system.chemostats], spec=exp["chem"]))
+            return
+        # the dictionary readers must produce the same defaults
+        try:
+            sd = build_from_dict(impl)
+            gd = si_state(sd)
+            if len(gd) != nS * N or not all(close(a, b) for a, b in zip(gd, want)):
+                k = next((i for i, (a, b) in enumerate(zip(gd, want)) if not close(a, b)), -1)
+                rep.violation("default", "layout:default-state:from-dictionary", dict(tag, index=k, got=gd, spec=want))
+                return
+            if [int(v) for v in sd.chemostats] != [int(bool(b)) for b in exp["chem"]]:
+                rep.violation("default", "layout:default-chemostats:from-dictionary", dict(tag, got=[int(v) for v in sd.chemostats], spec=exp["chem"]))
+                return
+        except Exception as e:  # noqa
+            rep.violation("default", "layout:build-from-dictionary-exception", dict(tag, exc=repr(e)[:200]))
             return
         labels = [kw["label"] for kw in impl["species"]]
         ok = True
